@@ -173,6 +173,9 @@ fn main() {
             total_programs += 1;
             let ast = serde_json::to_string(&m.prog).unwrap();
             let meta = serde_json::to_string(&m.meta).unwrap();
+            if std::env::var("VERIF_DEBUG_GEN").is_ok() {
+               eprintln!("printing {} {}\n{}", m.meta.base, m.meta.variant, ast);
+            }
             lib.push_str(&print::print_module(&mod_name, &m.prog, &m.opts, &ast, &meta));
             let text = print::program_text(&m.prog, &m.opts);
             writeln!(
@@ -240,6 +243,8 @@ pub fn meta(base: &str, variant: &str, kind: Kind, is_ref: bool) -> Meta {
       finding_id: None,
       fixed_input: None,
       fixed_ops: None,
+      permute_input: false,
+      val_map: None,
    }
 }
 
